@@ -825,7 +825,8 @@ static uint64_t op_bitstream(const pool_entry *p, unsigned par) {
  *                         GetQuickMediumReturnValue_ / varintBigExternalGet /
  *                         SignedEncoding / UnsignedEncoding; big-endian Put /
  *                         PutFixedWidth / PutFixedWidthQuick_ / Get /
- *                         GetQuick_ / UnsignedEncoding
+ *                         GetQuick_ / UnsignedEncoding; the Prepare / Restore
+ *                         sign macros (24, 40, 48, 56 bits)
  *   scalar.chained32      varintChained_putVarint32 / _getVarint32 /
  *                         GetVarint32 / VarintLen; chained-simple Encode32 /
  *                         Decode32 / Decode32Fallback / Length
@@ -1129,6 +1130,51 @@ static void sc_fixed(const pool_entry *p, unsigned par, trace *t) {
             t_u64(t, varintExternalBigEndianGet(b, (varintWidth)w));
             varintExternalBigEndianGetQuick_(c, w, r);
             t_u64(t, r);
+        }
+        /* ---- sign helpers of the external family (|value| < 2^(bits-1)) and
+         * the size helpers of the headers ---- */
+        {
+            static const unsigned widths[4] = {3, 5, 6, 7};
+            const unsigned w = widths[(x >> 36) & 3], bits = 8 * w;
+            const uint64_t mag = v & ((1ULL << (bits - 1)) - 1);
+            const int64_t sv = ((x >> 38) & 1) ? -(int64_t)mag : (int64_t)mag;
+            uint64_t stored;
+            int64_t back;
+            memset(b, 0, sizeof(b));
+            if (w == 3) {
+                int32_t y = (int32_t)sv;
+                varintPrepareSigned32to24_(y);
+                stored = (uint64_t)(uint32_t)y & 0xffffffULL;
+                varintExternalPutFixedWidth(b, stored, (varintWidth)w);
+                int32_t r = (int32_t)varintExternalGet(b, (varintWidth)w);
+                varintRestoreSigned24to32_(r);
+                back = r;
+            } else {
+                int64_t y = sv;
+                if (w == 5) {
+                    varintPrepareSigned64to40_(y);
+                } else if (w == 6) {
+                    varintPrepareSigned64to48_(y);
+                } else {
+                    varintPrepareSigned64to56_(y);
+                }
+                stored = (uint64_t)y & ((1ULL << bits) - 1);
+                varintExternalPutFixedWidth(b, stored, (varintWidth)w);
+                int64_t r = (int64_t)varintExternalGet(b, (varintWidth)w);
+                if (w == 5) {
+                    varintRestoreSigned40to64_(r);
+                } else if (w == 6) {
+                    varintRestoreSigned48to64_(r);
+                } else {
+                    varintRestoreSigned56to64_(r);
+                }
+                back = r;
+            }
+            t_u64(t, stored);
+            t_u64(t, (uint64_t)back);
+            t_u32(t, varintDeltaMaxEncodedSize((size_t)(x & 0xfff)));
+            t_u32(t, varintEliasGammaMaxBytes((size_t)(x & 0xfff)));
+            t_u32(t, varintEliasDeltaMaxBytes((size_t)(x & 0xfff)));
         }
     }
 }
